@@ -187,6 +187,9 @@ class Sim:
         self.cancel_started = None
         self.resub_after_cancel = 0
         self.window_resub = False
+        self.ev_snap_by_pid = {}
+        self.ev_consolidators = set()
+        self.ev_consolidation_snapshot = None
         self.srh = None
         self.srh_seen = set()
         self.srh_released = False
@@ -1231,12 +1234,34 @@ class Sim:
             self.run_ord[a.pid] = len(self.run_ord)
         self.log("PROC", a.pid, a.host, a.node, " ".join(a.argv[:5]))
 
+    def _event_lines_now(self):
+        out = set()
+        for f in glob.glob(os.path.join(glob.escape(self.out), "*events.log")):
+            try:
+                for line in open(f):
+                    if line.strip():
+                        rec = json.loads(line)
+                        out.add(json.dumps([rec.get("timestamp"), rec.get("source"), rec.get("category"), rec.get("message"), rec.get("data")], sort_keys=True))
+            except (OSError, ValueError):
+                continue
+        return out
+
     def on_io(self, a, msg):
         p = msg.get("p", "")
         base = os.path.basename(p)
         ev = msg.get("ev")
         if SHARED.search(base):
             self.shared_event(a, ev + ("w" if is_write_open(msg) else ""), re.sub(r"\d+", "N", base))
+        if ev == "open" and self.scen.get("check_events"):
+            d = os.path.dirname(p)
+            if base.endswith("events.log") and d == self.out and not is_write_open(msg) and a.pid not in self.ev_snap_by_pid:
+                # a process starts reading the event logs (possibly to consolidate them): what is in them at this instant?
+                self.ev_snap_by_pid[a.pid] = self._event_lines_now()
+            if is_write_open(msg) and os.path.basename(d) == "events" and os.path.dirname(d) == self.out and a.pid not in self.ev_consolidators:
+                # ... and it writes the consolidated summary: events that reach the logs after its first read cannot be in it
+                self.ev_consolidators.add(a.pid)
+                self.ev_consolidation_snapshot = self.ev_snap_by_pid.get(a.pid)
+                self.log("EVENTS_CONSOLIDATED by", a.pid, a.host, "lines at its first read", len(self.ev_consolidation_snapshot or ()))
         if ev == "os.remove" and base == "cluster_config.json.lock" and os.path.dirname(p) == self.out:
             self.want_obs = f"unlock by {a.host}"
             self.unlock_by = (a.pid, a.host, a.cmd)
@@ -1951,13 +1976,32 @@ class Sim:
         except Exception as e:
             self.viol("C20", "summary-crashed", f"EventsSummary raised {e!r} on the {nlines} events of this run")
             return
+        snap = self.ev_consolidation_snapshot  # the logs as they were when the last consolidating process started reading them (None: unknown)
+        snap3 = None if snap is None else {json.dumps([json.loads(l)[0], json.loads(l)[1], json.loads(l)[4]], sort_keys=True) for l in snap}
+
+        def late_only(missing_lines, sn):
+            """Are all the missing events ones that reached the logs only after JADE had consolidated the summary?"""
+            return sn is not None and missing_lines and all(l not in sn for l in missing_lines)
+
         for name, lines in raw.items():
+            sn = snap
             if name in stats_names:  # same comparison over the fields a resource sample has in the parquet file
                 lines = [json.dumps([json.loads(l)[0], json.loads(l)[1], json.loads(l)[4]], sort_keys=True) for l in lines]
                 self.stat_samples_checked = getattr(self, "stat_samples_checked", 0) + len(lines)
+                sn = snap3
             got = [x[1] for x in first.get(name, [])]
             if sorted(got) != sorted(lines):
-                self.viol("C20", "event-multiset", f"event name {name!r}: {len(lines)} written by the run's processes, {len(got)} in the consolidated summary")
+                rest = list(got)
+                missing_lines = []
+                for l in lines:
+                    if l in rest:
+                        rest.remove(l)
+                    else:
+                        missing_lines.append(l)
+                if not rest and late_only(missing_lines, sn):
+                    self.viol("C20", "event-after-consolidation", f"event name {name!r}: {len(missing_lines)} of {len(lines)} events reached the event logs after a completing round had consolidated the summary (another node was still finishing) and are not in it")
+                else:
+                    self.viol("C20", "event-multiset", f"event name {name!r}: {len(lines)} written by the run's processes, {len(got)} in the consolidated summary")
             ts = [x[0] for x in first.get(name, [])]
             if ts != sorted(ts):
                 self.viol("C20", "event-order", f"event name {name!r}: not ordered by time in the consolidated summary")
@@ -1966,7 +2010,10 @@ class Sim:
             got = [x[1] for x in first.get("probe_job", [])]
             lost = sorted({src for src, l in truth if got.count(l) == 0})
             dup = sorted({src for src, l in truth if got.count(l) > 1})
-            if lost:
+            lost_lines = [l for s_, l in truth if got.count(l) == 0]
+            if lost and late_only(lost_lines, snap):
+                self.viol("C20", "event-after-consolidation", f"events logged by jobs {lost} reached the output directory after a completing round had consolidated the summary and are not in it: {len(lost_lines)} of {len(truth)}")
+            elif lost:
                 self.viol("C20", "job-event-lost", f"events logged by jobs {lost} (to their own events.log, kept open while they ran) are not in the consolidated summary: {len([1 for s_, l in truth if got.count(l) == 0])} of {len(truth)}")
             if dup:
                 self.viol("C20", "job-event-duplicated", f"events logged by jobs {dup} appear more than once in the consolidated summary")
